@@ -198,6 +198,12 @@ def setUserPerm (s : State) (uid : Int) (rec : List Nat) (perm : Nat) : State ×
   | .ok .none => (r.1, .ok (Int.ofNat perm, .none))
   | .ok e => (r.1, .ok (0, e))
 
+/-- `cache.SetUserID(uid, userID)` (registration, rename / case correction, re-assignment of a slot) as far as the
+balances go: it re-links the slot in the user hash and stores the id in `Shm.Userid`; `Shm.Money` and `.PASSWDS` are
+not touched.  (The id itself lives in the driver's copy of `Shm.Userid`.) -/
+def setUserID (s : State) (uid : Int) : State × Err :=
+  if uid ≤ 0 ∨ uid > (MAX : Int) then (s, .invalidUID) else (s, .none)
+
 /-- a field writer of cmbbs (`PasswdUpdatePasswd`, `PasswdUpdateEmail`, … behind `ptt.ChangePasswd`,
 `ptt.ChangeEmail`): validity, open, Seek to `USEREC_RAW_SZ*(uid-1) + Offsetof(field)`, write the field's bytes.
 Nothing is read from the record and nothing else is written. -/
